@@ -26,6 +26,9 @@ RULE = ("binary trees on 4..12 tips (thorough: up to 24), unrooted (root of degr
         "-o out` on small, 16-24-tip and 60-70-tip trees and a two-tree file (outputs below 4096, above 4096 and above 65536 "
         "bytes): the output file must hold, line by line, the neighbours that the judged worker run of the same tree produced, "
         "and equal the run writing to stdout; "
+        "greedy cases (outside the literal quantifier, oracle only): the callback KEEPS proposals (the first / second of a "
+        "branch, early, middle, late, two of them, every first one) applied and lets the enumeration continue; every proposal "
+        "is judged against the tree as it is when it is handed out (one split replaced, exact Undo, no error); "
         "multifurcating trees (outside the property: correspondence and the per-proposal clauses only, tag nonbinary); "
         "distinct = distinct case text")
 TRUSTED = ["tree built through NewNode/NewEdge + verif hooks (exact neighbour order); dump through Neigh()/Edges()/Left()/Right() "
@@ -205,6 +208,18 @@ def gen(rng, tier):
         else:
             ts = [rnd_tree(rng.randint(5, 12)) for _ in range(k)]
         out.append({"sx": sx({"par": [T(t) for t in ts]}), "meta": seq_meta(ts, "shared", goroutines=k)})
+    # greedy sweep: some proposals are kept applied, the enumeration continues
+    ngreedy = {"quick": 42, "thorough": 700, "search": 90}[tier]
+    for i in range(ngreedy):
+        t = rnd_tree(rng.randint(5, 12))
+        n = nprops(t)
+        if n == 0:
+            continue
+        h = (n // 2) & ~1
+        keep = [[0], [1], [h], [h + 1], [n - 2], [n - 1], [0, h + 1], list(range(0, n, 2)), sorted(rng.sample(range(n), min(n, 3)))][i % 9]
+        m = meta_of(t, "greedy")
+        m["keep"] = ",".join(map(str, keep))[:40]
+        out.append({"sx": sx({"tree": T(t), "keep": keep}), "meta": m})
     # operations on the proposal objects (the applied flag), inside the callback and on kept objects
     OPS = ["AUAU", "AAU", "AUU", "UAU", "AUAAUU", "AAUAU", "UUAAUU", "AU"]
     K = 64
